@@ -81,7 +81,7 @@ PROPS = {
         "lean": "Originium.Props.C04",
         "suites": ["key", "crash"],
         "skeleton_funcs": FS_SKEL + ["Txn.Commit", "DB.rawset", "memtable.set"],
-        "trusted_base": DB_TB + FS_TB,
+        "trusted_base": DB_TB + FS_TB + ["extract/gotrans.go (DESIGN section 14) regenerates GenDB.rawset / GenDB.flushImmutable (the order of the effects of DB.rawset and DB.flushImmutable) from /repo on every run; DBTie.rawset_table / flushImmutable_table are part of this property's module"],
         "assumptions": ["process-crash model only (a torn batch belongs to C14, which claims acknowledged commits only)",
                         "that the code is the program Prog is tied dynamically (recorded traces must be traces of Prog.act) and by the skeleton"],
         "explanation": "a transaction reaches the disk through exactly one commit event carrying its whole batch; written batches stay kept, unwritten ones are absent, for every accepted trace and for every execution of the program model Prog (ReachP); crash suite checks all-or-nothing of the in-flight transaction on every image",
@@ -185,7 +185,7 @@ PROPS = {
         "skeleton_funcs": ["DB.Close", "DB.run", "DB.rawset", "Txn.Commit", "oracle.readTs", "oracle.newCommitTs", "oracle.doneCommit", "DB.search",
                            "DB.flushImmutable", "levelManager.flushToL0", "levelManager.checkAndCompact", "levelManager.searchLowerBound",
                            "pkg/watermark:WaterMark.WaitForMark", "pkg/watermark:WaterMark.process", "memtable.set", "memtable.freeze", "memtable.reset"],
-        "trusted_base": COMMON_TB + ["the blocking model's step granularity and the claim that short mutex sections contain no wait for another goroutine's progress rest on the extracted sync skeleton (compared with golden/skeleton.txt on every run)"],
+        "trusted_base": COMMON_TB + ["the blocking model's step granularity and the claim that short mutex sections contain no wait for another goroutine's progress rest on the extracted sync skeleton (compared with golden/skeleton.txt on every run)"] + ["extract/gotrans.go (DESIGN section 14) regenerates GenDB.rawset / GenDB.flushImmutable (the order of the effects of DB.rawset and DB.flushImmutable) from /repo on every run; DBTie.rawset_table / flushImmutable_table are part of this property's module"],
         "assumptions": ["wall-clock 'bounded time' is a runtime notion: partial for that clause; the model bounds the number of steps (C15_progress, C15_bound) under any scheduler that keeps running enabled goroutines",
                         "one Close per DB handle (a second Close is outside the property)"],
         "explanation": "counting abstraction of any number of committers/readers, flusher, closer with writeLock, bounded queue (any capacity incl. 0), close handshake and commitMark wait; invariant + not_stuck + strictly decreasing variant; closerace suite under watchdog",
